@@ -258,7 +258,7 @@ theorem wrap_nonneg {n : Nat} {K : SCtx} {k : Ctx} {sub : Bool} {c : Cmd} {s s0 
               rw [mwrap_fire hao' hok (hign.trans hi') hrt, swrap_fire hic hfail hi' hst]
               have hee : (absEnvC s1).errexit = true := he
               rw [if_pos he, if_pos hee]
-              exact ⟨rfl, hnf.1, rfl, rfl, rfl, hd.csub, hd.ht, hd.cerr, hnp⟩
+              exact ⟨rfl, hnf.1, rfl, rfl, rfl, hd.csub, hd.ht, hd.cerr, hnp, rfl⟩
           · -- errexit is off: the test changes nothing on either side
             have he' : s1.errexit = false := by simpa using he
             have hee : (absEnvC s1).errexit = false := he'
@@ -306,7 +306,7 @@ theorem wrap_nonneg {n : Nat} {K : SCtx} {k : Ctx} {sub : Bool} {c : Cmd} {s s0 
     exact ⟨rfl, ⟨hd.cerr, hd.csub, hd.fok, hd.ht, hd.eign, hd.noe, hd.sfn, hd.inl⟩,
       ⟨hfr'.ne, hfr'.il, hfr'.inf⟩, hnf, hb, hc, hl, hz, fun _ => rfl⟩
   | ret =>
-    obtain ⟨he, hd, hfr, hnp, hr, hfn, hfor, _, hex⟩ := h
+    obtain ⟨he, hd, hfr, hnp, hr, hfn, _, hex⟩ := h
     subst he
     have hfr' : Frame s s1 := hf0.trans hfr
     have hrt : run n (.trap s1.callbackErr) s1 = some s1 := by
@@ -315,7 +315,7 @@ theorem wrap_nonneg {n : Nat} {K : SCtx} {k : Ctx} {sub : Bool} {c : Cmd} {s s0 
     -- nothing happens, or `exiting` is added where the test fires under errexit
     have hplain : Post K k sub True (tailOkC c = true) s { s1 with lastExit := s1.exit } .ret (absEnvC s1) :=
       ⟨rfl, ⟨hd.cerr, hd.csub, hd.fok, hd.ht, hd.eign, hd.noe, hd.sfn, hd.inl⟩,
-        ⟨hfr'.ne, hfr'.il, hfr'.inf⟩, hnp, hr, hfn, hfor, fun _ => rfl, hex⟩
+        ⟨hfr'.ne, hfr'.il, hfr'.inf⟩, hnp, hr, hfn, fun _ => rfl, hex⟩
     by_cases hao : c.isAndOr = true
     · rw [mwrap_andor hao]; exact hplain
     · by_cases hok : s1.exit.ok = true
@@ -328,16 +328,16 @@ theorem wrap_nonneg {n : Nat} {K : SCtx} {k : Ctx} {sub : Bool} {c : Cmd} {s s0 
           by_cases he : s1.errexit = true
           · rw [if_pos he]
             exact ⟨rfl, ⟨hd.cerr, hd.csub, hd.fok, hd.ht, hd.eign, hd.noe, hd.sfn, hd.inl⟩,
-              ⟨hfr'.ne, hfr'.il, hfr'.inf⟩, hnp, hr, hfn, hfor, fun _ => rfl, fun _ => ⟨he, hne', hc0⟩⟩
+              ⟨hfr'.ne, hfr'.il, hfr'.inf⟩, hnp, hr, hfn, fun _ => rfl, fun _ => ⟨he, hne', hc0⟩⟩
           · have he' : s1.errexit = false := by simpa using he
             rw [if_neg (by simp [he'])]; exact hplain
   | exit =>
-    obtain ⟨hx, hr, hs, ho, ht, hcs, hht, hce, hnp⟩ := h
+    obtain ⟨hx, hr, hs, ho, ht, hcs, hht, hce, hnp, hv⟩ := h
     have hrt : run n (.trap s1.callbackErr) s1 = some s1 := by
       rw [hce]; exact run_trap_nil hn s1
     rw [swrap_other (by simp) (Or.inl ⟨by simp, by simp⟩)]
     have hplain : Post K k sub True (tailOkC c = true) s { s1 with lastExit := s1.exit } .exit e1 :=
-      ⟨hx, hr, hs, ho, ht, hcs, hht, hce, hnp⟩
+      ⟨hx, hr, hs, ho, ht, hcs, hht, hce, hnp, hv⟩
     by_cases hao : c.isAndOr = true
     · rw [mwrap_andor hao]; exact hplain
     · by_cases hok : s1.exit.ok = true
@@ -346,7 +346,7 @@ theorem wrap_nonneg {n : Nat} {K : SCtx} {k : Ctx} {sub : Bool} {c : Cmd} {s s0 
         · rw [mwrap_skip (Or.inr hne)]; exact hplain
         · rw [mwrap_fire (by simpa using hao) (by simpa using hok) (by simpa using hne) hrt]
           by_cases he : s1.errexit = true
-          · rw [if_pos he]; exact ⟨rfl, hr, hs, ho, ht, hcs, hht, hce, hnp⟩
+          · rw [if_pos he]; exact ⟨rfl, hr, hs, ho, ht, hcs, hht, hce, hnp, hv⟩
           · have he' : s1.errexit = false := by simpa using he
             rw [if_neg (by simp [he'])]; exact hplain
 
@@ -370,6 +370,6 @@ theorem wrap_pending {n : Nat} {K : SCtx} {k : Ctx} {sub : Bool} {c : Cmd} {s s0
   have hok : s1.exit.ok = false := by simp [Exit.ok, hc0]
   have hee' : (absEnvC s1).errexit = true := hee
   rw [mwrap_fire hao hok hne hrt, swrap_fire hic hc0 hi hst, if_pos hee, if_pos hee']
-  exact ⟨rfl, hr, rfl, rfl, rfl, hd.csub, hd.ht, hd.cerr, hnp⟩
+  exact ⟨rfl, hr, rfl, rfl, rfl, hd.csub, hd.ht, hd.cerr, hnp, rfl⟩
 
 end ShVerif.C26
